@@ -59,8 +59,8 @@ def run_enumerated(cases):
         rroots = [str(p) for p in cfg.LIB_PATHS]
         for i, c in enumerate(cases):
             allow = c["allow"]
-            if allow:
-                os.environ["MONKEYTYPE_TRACE_MODULES"] = ",".join(allow)
+            if allow or c["allowset"]:
+                os.environ["MONKEYTYPE_TRACE_MODULES"] = ",".join(allow)     # may be the empty string: set, nothing listed
             else:
                 os.environ.pop("MONKEYTYPE_TRACE_MODULES", None)
             cfg.default_code_filter.cache_clear()
@@ -82,6 +82,7 @@ def run_enumerated(cases):
             code = compile("def f():\n    return 1\n", fn, "exec")
             verdict = cfg.default_code_filter(code)
             out.append(admit_record(i + 1, fn, module, allow, verdict, rroots))
+            out[-1]["allowset"] = bool(c["allowset"])
             out[-1]["case"] = c
     finally:
         cfg.LIB_PATHS = real_lib
@@ -177,7 +178,16 @@ class K:
         return x
 '''
 
+PKG_MAIN = '''def pmain(x):
+    return parse(x)
+
+
+def parse(y):
+    return [y]
+'''
+
 SCRIPT = '''import {user} as U
+from {user}_pkg.__main__ import pmain
 
 
 def main_func(x):
@@ -192,6 +202,7 @@ class InMain:
 if __name__ == "__main__":
     main_func(1)
     InMain().m("s")
+    pmain(7)
     U.K().meth(2.5)
     (lambda z: z)(3)
 '''
@@ -206,6 +217,10 @@ def run_main_scenarios(tid0, n, seed):
             user = "usermod%d" % j
             with open(os.path.join(d, user + ".py"), "w") as fh:
                 fh.write(USER_MOD)
+            os.makedirs(os.path.join(d, user + "_pkg"))
+            open(os.path.join(d, user + "_pkg", "__init__.py"), "w").close()
+            with open(os.path.join(d, user + "_pkg", "__main__.py"), "w") as fh:     # a module merely NAMED ...__main__
+                fh.write(PKG_MAIN)
             with open(os.path.join(d, "script.py"), "w") as fh:
                 fh.write(SCRIPT.format(user=user))
             env = dict(os.environ, MT_DB_PATH=os.path.join(d, "db.sqlite3"), PYTHONPATH=core.REPO + os.pathsep + d)
@@ -220,7 +235,8 @@ def run_main_scenarios(tid0, n, seed):
             rows = c.execute("SELECT module, qualname FROM monkeytype_call_traces").fetchall()
             c.close()
             recs.append({"tid": tid0 + j, "ev": "Run", "modules": sorted({r[0] for r in rows}),
-                         "expected": sorted(["%s.used" % user, "%s.also_used" % user, "%s.K.meth" % user]),
+                         "expected": sorted(["%s.used" % user, "%s.also_used" % user, "%s.K.meth" % user,
+                                             "%s_pkg.__main__.pmain" % user, "%s_pkg.__main__.parse" % user]),
                          "got": sorted({"%s.%s" % r for r in rows}), "mode": " ".join(mode)})
         finally:
             shutil.rmtree(d, ignore_errors=True)
@@ -235,7 +251,7 @@ def custom_filter_scenarios(seed, n, tier):
     rng = random.Random(seed)
     beh = rng.sample(beh, min(n, len(beh)))
     # qualified names: Kls.m_over and Sub.m_over share file and short name but get independent verdicts
-    names = ["f_mod", "f_posonly", "f_star", "f_kwonly", "f_wrapped", "g_mod", "c_mod", "Kls.m_inst", "Kls.m_over", "Sub.m_over",
+    names = ["f_mod", "f_posonly", "f_star", "f_pos_star", "f_kwonly", "f_wrapped", "g_mod", "c_mod", "Kls.m_inst", "Kls.m_over", "Sub.m_over",
              "Kls.m_cls", "Kls.m_static", "Kls.prop", "Kls.g_meth", "Kls.c_meth", "h_hidden", "_make_nested.<locals>.rec_inner",
              "_make_nested.<locals>.rec_gen"]
     scs = []
